@@ -2,11 +2,12 @@ CONSTANTS
   N = 3
   AMax = 1
   AMaxCG = 1
+  AMaxBs = 1
   KMax = 3
-  Thin = 12
+  Thin = 2
   Wide = FALSE
   BsBound = 8
-  Methods = {"cg", "gmres.right.K", "richardson"}
+  Methods = {"cg", "richardson", "richardson.half"}
 INIT Init
 NEXT Next
 INVARIANTS ProgMatchesRef TerminatesAtN CarriedResidual GmresMonotone
